@@ -21,9 +21,23 @@ const STRS: &[&str] = &[
     "true", "1", "1979-05-27", "a.b", "key = 1", "[x]", "\u{feff}", "line1\nline2", "  ", "a\u{1}b", "\\n", "end\\",
 ];
 const KEYS: &[&str] = &["a", "b", "k", "", "a b", "1", "a.b", "\"", "é", "true", "\n", "'", "#"];
-const DTS: &[&str] = &[
-    "1979-05-27T07:32:00Z", "1979-05-27T07:32:00.999999999-07:00", "1979-05-27T07:32:00", "1979-05-27", "07:32:00", "00:00:00.5",
-    "2000-02-29T23:59:60+23:59", "0001-01-01T00:00:00Z", "9999-12-31",
+// date-times are built from their fields, not parsed: Datetime::from_str is code under test
+// (date, time (h, m, s, ns), offset: None = local, Some(None) = Z, Some(Some(minutes)))
+type DtSpec = (Option<(u16, u8, u8)>, Option<(u8, u8, u8, u32)>, Option<Option<i16>>);
+const DTS: &[DtSpec] = &[
+    (Some((1979, 5, 27)), Some((7, 32, 0, 0)), Some(None)),
+    (Some((1979, 5, 27)), Some((7, 32, 0, 999_999_999)), Some(Some(-420))),
+    (Some((1979, 5, 27)), Some((7, 32, 0, 0)), None),
+    (Some((1979, 5, 27)), None, None),
+    (None, Some((7, 32, 0, 0)), None),
+    (None, Some((0, 0, 0, 500_000_000)), None),
+    (Some((2000, 2, 29)), Some((23, 59, 60, 0)), Some(Some(1439))),
+    (Some((1, 1, 1)), Some((0, 0, 0, 0)), Some(None)),
+    (Some((9999, 12, 31)), None, None),
+    // every fraction digit significant, the smallest fraction
+    (Some((2024, 2, 29)), Some((23, 59, 59, 123_456_789)), Some(Some(-90))),
+    (None, Some((0, 0, 0, 1)), None),
+    (Some((1979, 5, 27)), Some((0, 32, 0, 120_000_000)), Some(Some(330))),
 ];
 
 fn g_str(r: &mut StdRng) -> String {
@@ -66,7 +80,15 @@ fn g_f64(r: &mut StdRng) -> f64 {
     }
 }
 fn g_dt(r: &mut StdRng) -> Datetime {
-    DTS[r.gen_range(0..DTS.len())].parse().expect("valid datetime")
+    let (d, t, o) = DTS[r.gen_range(0..DTS.len())];
+    Datetime {
+        date: d.map(|(year, month, day)| toml_datetime::Date { year, month, day }),
+        time: t.map(|(hour, minute, second, nanosecond)| toml_datetime::Time { hour, minute, second, nanosecond }),
+        offset: o.map(|x| match x {
+            None => toml_datetime::Offset::Z,
+            Some(minutes) => toml_datetime::Offset::Custom { minutes },
+        }),
+    }
 }
 fn g_char(r: &mut StdRng) -> char {
     ['a', '"', '\'', '\\', '\n', '\0', 'é', '\u{1F600}', ' '][r.gen_range(0..9)]
